@@ -30,19 +30,32 @@ def lowers (l t : String) : Bool :=
   | some a, some b => decide (b < a)
   | _, _ => false
 
+/-- a `fallthrough` is reported as `FALLTHROUGH:<label of the following clause>` (resolved before the cases are put
+    into canonical order): the only one is Host → Hostname, two states of the same rank sharing one body -/
+def fallsTo (t : String) : Option String :=
+  match t with
+  | "FALLTHROUGH:StateHostname" => some "StateHostname"
+  | _ => none
+
+def sameRank (l t : String) : Bool :=
+  match rankOf l, rankOf t with
+  | some a, some b => a == b
+  | _, _ => false
+
 theorem C02_skeleton_ranked : ∀ c ∈ Generated.skeleton, ∀ l ∈ c.1, ∀ t ∈ c.2.1,
-    t = "FALLTHROUGH" ∨ lowers l t = true := by decide
+    (∃ s, fallsTo t = some s ∧ sameRank l s = true) ∨ lowers l t = true := by decide
 
 /-- all 21 states have a case and the self-looping states never call `reset`/`rewind` on the cursor… the cursor calls per case
-    are exactly these (a rewind added inside a consuming loop changes the list) -/
+    (cases in canonical order, calls inside helpers that receive the cursor included) are exactly these: a rewind added
+    inside a consuming loop changes the list -/
 theorem C02_skeleton_cursor_calls : Generated.skeleton.map (fun c => (c.1, c.2.2)) = [
-    (["StateSchemeStart"], ["rewindLast"]), (["StateScheme"], ["nextCodePoint", "reset"]), (["StateNoScheme"], ["rewindLast", "rewindLast"]),
-    (["StateSpecialRelativeOrAuthority"], ["nextCodePoint", "rewindLast"]), (["StatePathOrAuthority"], ["rewindLast"]),
-    (["StateRelative"], ["rewindLast"]), (["StateRelativeSlash"], ["rewindLast"]), (["StateSpecialAuthoritySlashes"], ["nextCodePoint", "rewindLast"]),
-    (["StateSpecialAuthorityIgnoreSlashes"], ["rewindLast"]), (["StateAuthority"], ["rewind"]), (["StateHost"], []),
-    (["StateHostname"], ["rewindLast", "rewindLast"]), (["StatePort"], ["rewindLast"]), (["StateFile"], ["rewindLast", "rewindLast"]),
-    (["StateFileSlash"], ["rewindLast"]), (["StateFileHost"], ["rewindLast"]), (["StatePathStart"], ["rewindLast", "rewindLast"]),
-    (["StatePath"], []), (["StateOpaquePath"], []), (["StateQuery"], []), (["StateFragment"], [])] := by decide
+    (["StateAuthority"], ["rewind"]), (["StateFile"], ["rewindLast", "rewindLast"]), (["StateFileHost"], ["rewindLast"]),
+    (["StateFileSlash"], ["rewindLast"]), (["StateFragment"], []), (["StateHost"], []), (["StateHostname"], ["rewindLast", "rewindLast"]),
+    (["StateNoScheme"], ["rewindLast", "rewindLast"]), (["StateOpaquePath"], []), (["StatePath"], []), (["StatePathOrAuthority"], ["rewindLast"]),
+    (["StatePathStart"], ["rewindLast", "rewindLast"]), (["StatePort"], ["rewindLast"]), (["StateQuery"], []), (["StateRelative"], ["rewindLast"]),
+    (["StateRelativeSlash"], ["rewindLast"]), (["StateScheme"], ["nextCodePoint", "reset"]), (["StateSchemeStart"], ["rewindLast"]),
+    (["StateSpecialAuthorityIgnoreSlashes"], ["rewindLast"]), (["StateSpecialAuthoritySlashes"], ["nextCodePoint", "rewindLast"]),
+    (["StateSpecialRelativeOrAuthority"], ["nextCodePoint", "rewindLast"])] := by decide
 
 
 end WhatwgUrl.Props.C02t
